@@ -730,7 +730,7 @@ func returnedValue(ret *ssa.Return, i int) ssa.Value {
 // ---- C20.EVERYISSUE ----
 
 func init() {
-	register(&Rule{ID: "C20.EVERYISSUE", Min: 3, Doc: "every issue in the output of a tool is turned into a diagnostic: the loops that report issues stop early only with a fatal error, and what a one-issue parser leaves over is parsed again", Run: runC20EveryIssue})
+	register(&Rule{ID: "C20.EVERYISSUE", Min: 5, Doc: "every issue in the output of a tool is turned into a diagnostic: the loops that report issues stop early only with a fatal error, what a one-issue parser leaves over is parsed again, and the diagnostics are placed at the run: key of the step", Run: runC20EveryIssue})
 }
 
 func runC20EveryIssue(c *Ctx) {
@@ -892,6 +892,30 @@ func runC20EveryIssue(c *Ctx) {
 		}
 		if nLoops == 0 {
 			c.bad("(*"+rule+")|loop over the issues", cbs[0].Pos(), "no loop reports the issues of the tool: at most one issue per script can become a diagnostic")
+		}
+		// (d) the diagnostics are reported at the run: key of the step whose script was checked
+		occ := 0
+		for _, fn := range fns {
+			for _, name := range []string{"(*RuleBase).Errorf", "(*RuleBase).Error"} {
+				for _, e := range findCalls(fn, name) {
+					occ++
+					construct := fmt.Sprintf("(*%s)|issue reported at the run: key#%d", rule, occ)
+					roots := map[string]bool{}
+					valueRoots(p, e.Common().Args[1], 0, map[ssa.Value]bool{}, roots)
+					var other []string
+					for r := range roots {
+						if r != "ExecRun.RunPos" {
+							other = append(other, r)
+						}
+					}
+					sort.Strings(other)
+					if len(other) == 0 && len(roots) > 0 {
+						c.ok(construct, e.Pos(), "the position of the diagnostic is ExecRun.RunPos of the step")
+					} else {
+						c.bad(construct, e.Pos(), "the position of the diagnostic comes from "+strings.Join(other, ", ")+" instead of the position of the step's run: key")
+					}
+				}
+			}
 		}
 	}
 }
@@ -1133,5 +1157,55 @@ func c20EveryRunStep(c *Ctx, rule string, vs *ssa.Function) {
 		c.ok(construct, vs.Pos(), "the calls leading to the tool depend on the kind of the step and on its shell only")
 	} else {
 		c.bad(construct, vs.Pos(), strings.Join(bad, "; ")+": some run: scripts of a checked shell are never passed to the tool")
+	}
+}
+
+// valueRoots: where a value handed down through parameters and captured variables comes from: the fields it is loaded
+// from at the outermost callers ("Type.field"), or a description of anything else.
+func valueRoots(p *Prog, v ssa.Value, depth int, seen map[ssa.Value]bool, out map[string]bool) {
+	if seen[v] {
+		return
+	}
+	seen[v] = true
+	if depth > 10 {
+		out["a value handed down too deep to follow"] = true
+		return
+	}
+	if f, _ := fieldLoad(v); f != "" {
+		out[f] = true
+		return
+	}
+	switch x := v.(type) {
+	case *ssa.Phi:
+		for _, e := range x.Edges {
+			valueRoots(p, e, depth+1, seen, out)
+		}
+	case *ssa.FreeVar, *ssa.UnOp:
+		if r := resolveCapture(v); r != v {
+			valueRoots(p, r, depth+1, seen, out)
+			return
+		}
+		out[symName(v)] = true
+	case *ssa.Parameter:
+		fn := x.Parent()
+		idx := -1
+		for i, q := range fn.Params {
+			if q == x {
+				idx = i
+			}
+		}
+		n := 0
+		for _, e := range p.callersOf(fn) {
+			if e.Site == nil || e.Site.Common().IsInvoke() || idx < 0 || idx >= len(e.Site.Common().Args) {
+				continue
+			}
+			n++
+			valueRoots(p, e.Site.Common().Args[idx], depth+1, seen, out)
+		}
+		if n == 0 {
+			out["the parameter "+x.Name()+" of "+fn.Name()] = true
+		}
+	default:
+		out[symName(v)] = true
 	}
 }
